@@ -7,7 +7,7 @@ ID, i = sys.argv[1], sys.argv[2]
 skip = "--skip-tests" in sys.argv
 extra = [a for a in sys.argv[3:] if not a.startswith("--")]
 dest_i = extra[0] if extra else i
-wt = os.environ.get("SEED_WT", "/tmp/seedC-%s") % ID
+wt = os.environ.get("SEED_WT", "/tmp/seedD-%s") % ID
 src = os.path.join(wt, "seed_out", i)
 dst = os.path.join(os.path.dirname(os.path.dirname(os.path.abspath(__file__))), "seeded", "%s-%s" % (ID, dest_i))
 os.makedirs(dst, exist_ok=True)
